@@ -24,6 +24,8 @@ type Engine struct {
 	funcs  map[string]*ssa.Function // key: funcKey
 	byPkg  map[string]*packages.Package
 	sccOf  map[*ssa.Function]int
+	regOnly map[*ssa.Function]bool
+	regShown bool
 	ctrs   map[string]*Contract // key: funcKey
 	specs  map[string]*SpecFunc // spec functions (global namespace)
 	axioms []*Axiom
